@@ -55,8 +55,8 @@ def specFile (bs : List Nat) : Json :=
   match Spec.specMeta bs with
   | .error e => obj [("header", errJson e.toString)]
   | .ok hdr =>
-    let counts : List Int := match lookupMeta hdr "package_count" with | some (.list l) => intsOf l | _ => []
-    let init : Option Rat := match lookupMeta hdr "bpm" with | some (.flt (.fin q)) => some q | _ => none
+    let counts : List Int := packageCounts hdr
+    let init : Option Rat := Spec.headerTempo hdr
     let framed := Spec.frameLevels counts (bs.drop Spec.headerSize)
     let lv : Json :=
       match framed, init with
@@ -65,6 +65,8 @@ def specFile (bs : List Nat) : Json :=
                                    ("packages", natToJson pk.length)]) lvls
       | _, _ => Json.null
     obj [("header", okJson (headerToJson hdr)), ("framed", Json.bool framed.isSome),
+         ("wf", Json.bool (Spec.wellFormed bs)),
+         ("set", resToJson (fun (f : FileOut) => listToJson levelToJson f.levels) (Spec.specSet bs)),
          ("init_positive", Json.bool (match init with | some q => decide (0 < q) | none => false)), ("levels", lv)]
 
 def handle (op : String) (j : Json) : Except String Json := do
